@@ -41,7 +41,10 @@ How(d) == IF <<E.dirs[1][1], E.dirs[1][2]>> \in d /\ Len(E.dirs) = 2 THEN "both"
           ELSE IF E.dirs[1][2] = SH THEN "c2s" ELSE "s2c"
 LinkHost == IF E.dirs[1][1] = SH THEN E.dirs[1][2] ELSE E.dirs[1][1]
 
-TNext ==
+\* events of a connection the harness could not attribute match no action: drift
+OkC == l <= Len(Rec) /\ (("c" \in DOMAIN Rec[l]) => (Rec[l].c \in Conns \/ Rec[l].ev = "accept"))
+
+TBody ==
     \/ TReset
     \/ Is("step") /\ (IF \E c \in Conns : att[c].must /\ ~att[c].late /\ att[c].st = "pending" THEN Tick ELSE Same)
     \/ Is("quiet") /\ (IF quiet THEN Same ELSE Quiet)
@@ -66,6 +69,8 @@ TNext ==
     \/ TDeliver
     \/ Is("panic") /\ P_Flag("NoPanic") /\ UNCHANGED <<mivars, last>>
     \/ Is("overdue") /\ P_Overdue(SetOf(E.cs)) /\ UNCHANGED <<mivars, last>>
+
+TNext == OkC /\ TBody
 
 TSpec == TInit /\ [][TNext]_<<vars, l>>
 
